@@ -16,7 +16,7 @@ THEOREMS = [
     "construct_mapping_is_distortion", "ub_sound", "lb_trivial_sound", "thmA_sound", "thmB_sound",
     "bounded_curvature_any_oracle", "greedy_complete_all", "greedy_total", "lb_sound", "lb_total", "numpy_oracles_in_range",
     "greedy_eq_bruteforce_small", "lb_nonneg", "half_integers", "iso_lb_zero", "iso_find_lb_zero",
-    "estimate_brackets", "estimate_total",
+    "estimate_brackets", "estimate_total", "sortkey_legacy_refuted",
 ]
 RULE = ("seeded generator over pairs of connected graphs with 1-7 vertices in classes {dense, sparse (tree + few "
         "edges), path, cycle, clique, star, spider, equal sizes (Theorem B decides), single vertex, relabelled copy (isomorphic), docstring examples} plus "
@@ -247,7 +247,7 @@ def shrink_candidates(c):
                 if c[key][k] > 0:
                     d = dict(c); d[key] = list(c[key]); d[key][k] -= 1; yield d
         return
-    if c.get("cls") == "wide":
+    if c.get("cls") == "wide" or max(len(c["AX"]), len(c["AY"])) > 60:
         return          # shrinking below 128 vertices leaves the regime, and every step costs seconds
     p = c.get("iso")
     if p is not None and len(c["AX"]) == len(c["AY"]) and len(p) == len(c["AX"]) > 1:
